@@ -12,6 +12,9 @@
 import Gotree.Lemmas.C16Nodup
 import Gotree.Lemmas.C16Oracle
 import Gotree.Lemmas.C16Script
+import Gotree.Lemmas.C16Keys
+import Gotree.Lemmas.C16Index
+import Gotree.Lemmas.C16Extra
 
 namespace Gotree.C16
 open Gotree
@@ -85,6 +88,33 @@ theorem gen_reads_only_script (g : GenKind) (n : Int) (rooted : Bool) (ints ints
     (hl : ∀ j, j < g.nlens n rooted → lens'.getD j 0 = lens.getD j 0) :
     run g n rooted ints' lens' = run g n rooted ints lens :=
   run_congr g n rooted ints ints' lens lens' ⟨hi, hl⟩
+
+/-- "Indexes ready for use", in full: on the tree every generator returns, the C04 model of the
+    final `ReinitIndexes` succeeds and gives every branch exactly the record its split prescribes
+    (bitset over the sorted tip names, both taxon counts, both additive name hashes — hence
+    `HashCode`, `TopoDepth`, `HashEquals`, by the C04 theorems), for every name hash `H`; and the
+    tip index kept by the C16 model is C04's rank list. -/
+theorem gen_index_complete (g : GenKind) (n : Nat) (rooted : Bool) (ints : List Nat) (lens : List Rat)
+    (H : String → UInt64) (h : g.min rooted ≤ n) (hd : drawsInRange g n rooted ints = true)
+    (hl : lensNonneg lens = true) :
+    ∃ o, run g (n : Int) rooted ints lens = .ok o ∧
+      o.reinit H = .ok (C04.sortNames o.t.tipNames, o.t.splits.map fun s => C04.specIdx H o.t.tipNames s.below) ∧
+      o.index = some (C04.sortNames o.t.tipNames) := by
+  have key : ∀ o : Out, o.t.tipNames.Perm (tipNamesUpTo (g.ntips n)) → indexReady o = true →
+      o.reinit H = .ok (C04.sortNames o.t.tipNames, o.t.splits.map fun s => C04.specIdx H o.t.tipNames s.below) ∧
+      o.index = some (C04.sortNames o.t.tipNames) := by
+    intro o hp hix
+    refine ⟨reinit_of_perm H o _ (ntips_pos g n rooted h) hp, ?_⟩
+    unfold indexReady at hix
+    rw [← sortNames_eq_C04]
+    simpa using hix
+  by_cases hg : g = .star
+  · subst hg
+    obtain ⟨o, h1, hp, _, hix, _⟩ := star_ok n h
+    have h1' : run .star (n : Int) rooted ints lens = .ok o := h1
+    exact ⟨o, h1', key o hp hix⟩
+  · obtain ⟨o, h1, _, hp, _, _, hix⟩ := gen_ok g n rooted ints lens hg h hd hl
+    exact ⟨o, h1, key o hp hix⟩
 
 /-! ### gen_rejects -/
 
@@ -291,6 +321,131 @@ theorem allTopologies_rejects (n : Int) (rooted : Bool) (names : List String)
 theorem allTopologies_nodup_partial :
     ([3, 4, 5, 6].all (topoCheck false) && [2, 3, 4, 5].all (topoCheck true)) = true := by
   decide +kernel
+
+/-! ### the enumeration oracle: numeric canonical form (closes `allTopologies_nodup_partial`)
+
+   `topoKeyN` turns the family of leaf sets below the branches into one number; the driver
+   evaluates `topoOKN` (count, well-formed trees, pairwise different keys) on every enumeration
+   the Go code returns, of any size.  The four theorems below say that this Bool oracle is
+   exactly the mathematical claim: equal keys ⇔ same topology, an accepted list is pairwise
+   different (whatever produced it), and the model's own enumeration is accepted for every `n`. -/
+
+/-- rooted: two trees on the reference tips get the same key iff they have the same set of clades -/
+theorem topoKeyN_rooted_iff_famEq (all : List String) (a b : T) (ha : a.tipNames.Perm all) (hb : b.tipNames.Perm all) :
+    topoKeyN all true a = topoKeyN all true b ↔ famEq (belowFam a) (belowFam b) = true := by
+  rw [famEq_iff]
+  exact topoKeyN_rooted_iff all a b (famIn_of_tips all a ha) (famIn_of_tips all b hb)
+
+/-- unrooted: two trees on the (pairwise different) reference tips get the same key iff they have
+    the same set of splits (leaf sets up to complement) -/
+theorem topoKeyN_unrooted_iff_uSame (all : List String) (hn : all.Nodup) (a b : T) (ha : a.tipNames.Perm all)
+    (hb : b.tipNames.Perm all) :
+    topoKeyN all false a = topoKeyN all false b ↔ USame all (belowFam a) (belowFam b) :=
+  topoKeyN_unrooted_iff all hn a b (famIn_of_tips all a ha) (famIn_of_tips all b hb)
+
+/-- soundness of the oracle: a list of trees accepted by `topoOKN` — whatever produced it — has the
+    right number of trees, each a binary tree on the requested tips, no topology twice -/
+theorem topoOKN_sound (n : Nat) (rooted : Bool) (names : List String) (hn : (topoNames names n).Nodup) (ts : List T)
+    (h : topoOKN n rooted ts names = true) :
+    ts.length = topoCount n rooted ∧ (∀ t ∈ ts, topoTreeOK n rooted t names = true) ∧
+    ts.Pairwise (fun a b => if rooted then ¬ FamEq (belowFam a) (belowFam b)
+      else ¬ USame (topoNames names n) (belowFam a) (belowFam b)) := by
+  have h' := h
+  unfold topoOKN at h'
+  simp only [Bool.and_eq_true, List.all_eq_true, beq_iff_eq] at h'
+  refine ⟨h'.1.1, h'.1.2, ?_⟩
+  cases rooted with
+  | true => simpa using topoOKN_sound_rooted n names ts h
+  | false => simpa using topoOKN_sound_unrooted n names hn ts h
+
+/-- the model's enumeration passes the oracle for every `n` (default names or `n` pairwise
+    different caller-supplied names): the full form of `allTopologies_nodup_partial` -/
+theorem allTopologies_meets_oracle (n : Nat) (rooted : Bool) (names : List String) (h : (if rooted then 2 else 3) ≤ n)
+    (hn : names = [] ∨ (names.length = n ∧ names.Nodup)) :
+    ∃ ts, allTopologies (n : Int) rooted names = .ok ts ∧ topoOKN n rooted ts names = true := by
+  have hn' : names = [] ∨ names.length = n := hn.imp id (·.1)
+  obtain ⟨ts, h1, hcount⟩ := allTopologies_count n rooted names h hn'
+  obtain ⟨ts2, h2, hwf⟩ := allTopologies_wellformed n rooted names h hn'
+  have e2 : ts2 = ts := res_ok_inj (h2.symm.trans h1)
+  subst e2
+  have hall : (topoNames names n).Nodup := namesUpTo_nodup (topoName names) n n (topoName_inj names n hn) (Nat.le_refl n)
+  refine ⟨ts2, h1, ?_⟩
+  unfold topoOKN
+  simp only [Bool.and_eq_true, List.all_eq_true, beq_iff_eq]
+  refine ⟨⟨?_, ?_⟩, ?_⟩
+  · rw [hcount]; unfold topoCount; rfl
+  · intro t ht
+    obtain ⟨w1, w2, w3⟩ := hwf t ht
+    unfold topoTreeOK
+    simp only [Bool.and_eq_true]
+    refine ⟨⟨sameNames_of_perm _ _ w1, w2⟩, ?_⟩
+    cases rooted <;> simp [w3]
+  · apply distinctNat_of_pairwise (topoNames names n) rooted hall ts2
+      (fun t ht => famIn_of_tips _ t (hwf t ht).1)
+    cases rooted with
+    | true =>
+      obtain ⟨ts3, h3, hd⟩ := allTopologies_nodup n true names h hn
+      have e3 : ts3 = ts2 := res_ok_inj (h3.symm.trans h1)
+      subst e3
+      rw [pairwiseDistinct_iff, List.pairwise_map] at hd
+      simpa using hd
+    | false =>
+      obtain ⟨ts3, h3, hd⟩ := allTopologies_nodup_unrooted n names (by simpa using h) hn
+      have e3 : ts3 = ts2 := res_ok_inj (h3.symm.trans h1)
+      subst e3
+      simpa using hd
+
+/-! ### the other constructors of treegen.go -/
+
+/-- `StarTreeFromName`: with at least two names, a star carrying exactly these names in this order,
+    all lengths 1; index ready when the names are pairwise different; fewer than two names: error -/
+theorem starFromNames_ok (names : List String) (h : 2 ≤ names.length) :
+    ∃ o, starFromNames names = .ok o ∧ starFromNamesOK names o.t = true ∧ o.t.tipNames = names ∧
+      (names.Nodup → o.index = some (sortNames names)) :=
+  starFromNames_ok_lemma names h
+
+theorem starFromNames_rejects (names : List String) (h : names.length < 2) : (starFromNames names).isErr = true := by
+  simp [starFromNames, h, Res.isErr]
+
+/-- `StarTreeFromTree`: a star with one tip per terminal branch of the input, same names, same
+    lengths (absent ones included), same order — whatever the shape of the input -/
+theorem starFromTree_ok (tin : T) (h : 2 ≤ (tipEdgesOf tin).length) (hn : ((tipEdgesOf tin).map (·.1)).Nodup) :
+    ∃ o, starFromTree tin = .ok o ∧ starFromTreeOK tin o.t = true ∧ o.t.tipNames = (tipEdgesOf tin).map (·.1) :=
+  starFromTree_ok_lemma tin h hn
+
+/-- `BipartitionTree`: two sides of at least two names, all pairwise different: the tree whose
+    only inner branch separates them, all lengths 1, index ready -/
+theorem bipartitionTree_ok (left right : List String) (hl : 2 ≤ left.length) (hr : 2 ≤ right.length)
+    (hd : (left ++ right).Nodup) :
+    ∃ o, bipartitionTree left right = .ok o ∧ twoStarOK left right o.t = true ∧ o.t.tipNames = right ++ left ∧
+      o.index = some (sortNames (right ++ left)) :=
+  bipartitionTree_ok_lemma left right hl hr hd
+
+/-- a side with fewer than two names, or a name on both sides, is an error -/
+theorem bipartitionTree_rejects (left right : List String)
+    (h : left.length ≤ 1 ∨ right.length ≤ 1 ∨ ∃ x, x ∈ left ∧ x ∈ right) :
+    (bipartitionTree left right).isErr = true := by
+  unfold bipartitionTree
+  split
+  · rfl
+  · split
+    · rfl
+    · rename_i h1 h2
+      exfalso
+      rcases h with h | h | ⟨x, hx, hy⟩
+      · apply h1; simp [h]
+      · apply h1; simp [h]
+      · apply h2
+        rw [List.any_eq_true]
+        exact ⟨x, hy, by simpa using hx⟩
+
+/-- `EdgeTree` on a branch of a tree with pairwise different tip names: the tree whose only inner
+    branch separates the tips below that branch from the others -/
+theorem edgeTree_ok (tin : T) (k : Nat) (hk : k < tin.splits.length) (hn : tin.tipNames.Nodup) :
+    ∃ o, edgeTree tin k = .ok o ∧
+      twoStarOK (tin.tipNames.filter fun x => !(tin.splits[k]).below.contains x)
+        (tin.tipNames.filter fun x => (tin.splits[k]).below.contains x) o.t = true :=
+  edgeTree_ok_lemma tin k hk hn
 
 /-! ### pinned variants: the repaired defects, as theorems about the old behaviour -/
 
